@@ -509,7 +509,7 @@ func (r *JobRun) runOp(op *Op, i int) *Violation {
 		lastErr, _ = res["lastError"].(string)
 	}
 	faulty := intOf(spec, "sinkFailAt") > 0 && r.seenSink >= intOf(spec, "sinkFailAt") || lastErr != ""
-	r.ev("run %s err=%v batches=%d", jobType, lastErr != "", len(r.delivered))
+	r.ev("run %s err=%v batches=%d sizes=%v par=%v", jobType, lastErr != "", len(r.delivered), batchSizes(r.delivered), cfg["_parallelism"])
 	if res == nil {
 		return viol(prop, "job-run", "no-result", "job %s ended without a stored result", id)
 	}
@@ -700,6 +700,14 @@ func (r *JobRun) checkTransformDelivery(id, jobType string, cfg map[string]any, 
 	}
 	r.Stats["transform_delivery_checks"]++
 	return nil
+}
+
+func batchSizes(b [][]string) []int {
+	out := make([]int, len(b))
+	for i, x := range b {
+		out[i] = len(x)
+	}
+	return out
 }
 
 func shortAll(l []string) []string {
@@ -908,7 +916,7 @@ func (r *JobRun) tickOp(op *Op, i int) *Violation {
 	}
 	reports := r.handlerReports(st)
 	cell := fmt.Sprintf("n=%d batch=%v maxItems=%d rejected=%v times=%d %s", len(given), cfg["batchSize"], maxItems, shortAll(keysOfInt(st.fails)), intOf(spec, "rejectTimes"), jobType)
-	r.ev("tick runs=%d rejects=%d reports=%d", len(st.runs), len(first.singleReject), len(reports))
+	r.ev("tick cell[%s] runs=%d rejects=%v reports=%d", cell, len(st.runs), shortAll(first.singleReject), len(reports))
 	if hasLog && intOf(spec, "sinkFailAlways") == 0 {
 		// (a) every single-entity rejection is reported exactly once, nothing else is reported
 		var allRej []string
